@@ -89,7 +89,7 @@ Definition append_json_value (v : value) : list N :=
 Definition is_empty (s : list N) : bool := match s with [] => true | _ => false end.
 Definition sepb (addsep : bool) : list N := if addsep then [44] else [].
 
-(** appendJsonAttr: returns the appended bytes and the new addSep *)
+(** appendJsonAttr: returns the appended bytes and the new addSep; a group without members appends nothing *)
 Fixpoint append_json_attr (k : list N) (v : value) (addsep : bool) {struct v} : list N * bool :=
   match v with
   | VGroup l =>
@@ -103,8 +103,12 @@ Fixpoint append_json_attr (k : list N) (v : value) (addsep : bool) {struct v} : 
          end) in
     if is_empty k then members l addsep
     else
-      let (o, _) := members l false in
-      (sepb addsep ++ [34] ++ append_json_string k ++ [34; 58; 123] ++ o ++ [125], true)
+      (* Go writes [,]"key":{ , renders the members threading hasMember, and truncates the buffer back to
+         where it started when no member was written (a keyed group without members is omitted) *)
+      let (o, has_member) := members l false in
+      if has_member
+      then (sepb addsep ++ [34] ++ append_json_string k ++ [34; 58; 123] ++ o ++ [125], true)
+      else ([], addsep)
   | _ => (sepb addsep ++ [34] ++ append_json_string k ++ [34; 58] ++ append_json_value v, true)
   end.
 
